@@ -172,7 +172,12 @@ theorem oneway_throws_rejected (env : Env) (p : Program) (w : WF p) (hpp : env.p
     (findSome?_ne_none hs (by rw [h]; exact funcLoop_oneway g ⟨ho, Or.inr ht⟩ a c))
 
 /-- a second defaulted member in a union (full since `fix: a union with two defaulted members is
-rejected`: the regenerated fact `unionSetsHasDefault` is `true`, see `code_facts`) -/
+rejected`: the regenerated fact `unionSetsHasDefault` is `true`, see `code_facts`).  For **any
+requiredness** of the members: the model's `Field` carries none because CheckUnions only warns about
+`required` and goes on to the default bookkeeping — `f1`, `f2` range over all members, and the
+correspondence compares the real CheckUnions with this on unions whose default-carrying members are
+required / optional / plain in every combination (seeded change C04-m9 skipped the bookkeeping for
+`required` members). -/
 theorem union_second_default_rejected (env : Env) (p : Program) (w : WF p) (hpp : env.parsePanics = false)
     (i : Nat) (f : File) (hr : Reach p i) (hf : p.files[i]? = some f)
     (u : StructLike) (hu : u ∈ f.unions) (f1 f2 : Field) (a b c : List Field)
